@@ -347,3 +347,80 @@ def check_loop_scratch(ctx, ck, rule, modules=('mininec', 'taper')):
         else:
             ck.ob(rule, f.qual, True, f.loc(), 'no array bound outside a loop is partly overwritten and read whole inside it')
     return n
+
+
+_ARRAY_MAKERS = ('array', 'zeros', 'ones', 'empty', 'full', 'copy', 'asarray', 'stack', 'vstack', 'hstack', 'concatenate',
+                 'zeros_like', 'ones_like', 'eye', 'identity', 'tile', 'repeat', 'arange', 'linspace')
+
+
+def alias_mutations(ctx):
+    """[(class, alias stmt, func of alias, attr A, attr B, mutating stmt, func)]: `self.A = self.B` makes A another name
+    of the array object in B (B is bound to a numpy array / list somewhere in the class family); a later in-place
+    update of either (`self.B += d`, `self.B[i] = v`, through a local that names it) changes both"""
+    m = ctx.model
+    out = []
+    aliases = []
+    for ci in m.classes.values():
+        for g in ci.methods.values():
+            for s in walk_no_nested(g.node):
+                if isinstance(s, ast.Assign) and len(s.targets) == 1:
+                    t, v = s.targets[0], s.value
+                    if isinstance(t, ast.Attribute) and isinstance(t.value, ast.Name) and t.value.id == 'self' and \
+                       isinstance(v, ast.Attribute) and isinstance(v.value, ast.Name) and v.value.id == 'self' and t.attr != v.attr:
+                        aliases.append((ci, g, s, t.attr, v.attr))
+    if not aliases:
+        return out, 0
+
+    def family(ci):
+        fam = {c.name for c in ci.mro}
+        for cj in m.classes.values():
+            if ci in cj.mro:
+                fam.add(cj.name)
+        return fam
+    n = 0
+    for ci, g, s, A, B in aliases:
+        fam = family(ci)
+        methods = [h for cj in m.classes.values() if cj.name in fam for h in cj.methods.values()]
+        # B holds an array object
+        is_arr = False
+        for h in methods:
+            for x in walk_no_nested(h.node):
+                if isinstance(x, ast.Assign):
+                    for t in x.targets:
+                        if isinstance(t, ast.Attribute) and isinstance(t.value, ast.Name) and t.value.id == 'self' and t.attr == B:
+                            v = x.value
+                            if isinstance(v, (ast.List, ast.ListComp)) or (isinstance(v, ast.Call) and
+                                                                          (dotted(v.func) or '').split('.')[-1] in _ARRAY_MAKERS):
+                                is_arr = True
+        if not is_arr:
+            continue
+        n += 1
+        for h in methods:
+            loc = {}
+            for x in walk_no_nested(h.node):
+                if isinstance(x, ast.Assign) and len(x.targets) == 1 and isinstance(x.targets[0], ast.Name) and \
+                   isinstance(x.value, ast.Attribute) and isinstance(x.value.value, ast.Name) and x.value.value.id == 'self' \
+                   and x.value.attr in (A, B):
+                    loc[x.targets[0].id] = x.value.attr
+
+            def names(e):
+                if isinstance(e, ast.Attribute) and isinstance(e.value, ast.Name) and e.value.id == 'self' and e.attr in (A, B):
+                    return e.attr
+                if isinstance(e, ast.Name) and e.id in loc:
+                    return loc[e.id]
+                return None
+            for x in walk_no_nested(h.node):
+                hit = None
+                if isinstance(x, ast.AugAssign):
+                    t = x.target
+                    hit = names(t) or (names(t.value) if isinstance(t, ast.Subscript) else None)
+                    if isinstance(t, ast.Name) and hit is not None and not any(
+                            isinstance(y, ast.Assign) and y.targets[0] is not None for y in []):
+                        pass
+                elif isinstance(x, ast.Assign):
+                    for t in x.targets:
+                        if isinstance(t, ast.Subscript) and names(t.value):
+                            hit = names(t.value)
+                if hit is not None:
+                    out.append((ci, s, g, A, B, x, h))
+    return out, n
